@@ -87,29 +87,58 @@ def gen_case(rng, tier):
                 docs.append(M([]))
             docs[-1]['items'].append([wk, late])
             focus = [wk] if holder is inner else [wk, 'sub']
+    coincide = None
+    if rng.random() < 0.2:
+        # a key of a deleting node that merely has the same *name* as a key somewhere below an older sibling container: renaming it
+        # (here: to a name used nowhere) must change nothing but that name
+        nm = rng.choice(POOL)
+        p_old, p_new = rng.choice([(1, -1), (1, 1), (0, -1), (0, 1), (-1, 1)])
+        hold = M([[nm, emit.S(1, **({'prio': p_old} if p_old else {}))], ['o', emit.S(2)]])
+        if rng.random() < 0.4:
+            hold = M([['deeper', hold]])
+        older = M([['hold', hold], ['keep', emit.S(3, prio=1)]])
+        def newer(name):
+            return M([[name, emit.S(9, **({'prio': p_new} if p_new else {}))], ['q', emit.S(4)]], **{'del': True})
+        docs[0]['items'] = [it for it in docs[0]['items'] if it[0] != 'dz'] + [['dz', older]]
+        if len(docs) < 2:
+            docs.append(M([]))
+        for d in docs[1:]:
+            d['items'] = [it for it in d['items'] if it[0] != 'dz']
+        base_last = copy.deepcopy(docs[-1])
+        docs[-1]['items'].append(['dz', newer(nm)])
+        alt_last = base_last
+        alt_last['items'].append(['dz', newer('fresh_k')])
+        coincide = {'name': nm, 'alt_last': alt_last}
     prefix = [rng.choice(POOL + ['w']) for _ in range(rng.choice([1, 1, 2, 3]))]
     perm_keys = POOL[:]
     rng.shuffle(perm_keys)
     perm = dict(zip(POOL, perm_keys))
-    # sibling content: new top-level keys in every stage where creating keys is allowed
+    # sibling content: new top-level keys in every stage where creating keys is allowed.  Half of the time the new keys are
+    # named like keys that occur *deeper* in the documents (never at the top level): what a path is called elsewhere is irrelevant
+    tops = {k for d in docs for k, _ in d['items']}
+    nested = sorted({k for d in docs for p_, n_ in emit.walk(d) if n_['t'] == 'map' and p_ for k, _ in n_['items'] if isinstance(k, str) and k not in tops and gen.path_str((k,)) == k})
+    sib_names = ['zz', 'zq']
+    if rng.random() < 0.5 and nested:
+        sib_names = [rng.choice(nested), 'zq'] if len(nested) == 1 else rng.sample(nested, 2)
     sib = []
     for i, d in enumerate(docs):
         d2 = copy.deepcopy(d)
         if i == 0 or (rng.random() < 0.6 and d.get('new') is not False):
             extra = gen.rand_node(rng, 2, pool_s=POOL, hostile=False, no_seq=True, kinds=('s',))
             extra = gen.place_flags(rng, extra, p=0.3, vocab=('prio', 'del', 'md'))
-            d2['items'].append(['zz', extra])
+            d2['items'].append([sib_names[0], extra])
             if rng.random() < 0.6:
                 # a sibling *in front of* the original keys, often protected by a priority of its own
                 zq = gen.rand_node(rng, 1, pool_s=POOL, hostile=False, no_seq=True, kinds=('s',))
                 if rng.random() < 0.6:
                     zq['prio'] = rng.choice([1, 1, -1])
-                d2['items'].insert(rng.randrange(0, max(1, len(d2['items']) // 2 + 1)), ['zq', zq])
+                d2['items'].insert(rng.randrange(0, max(1, len(d2['items']) // 2 + 1)), [sib_names[1], zq])
         sib.append(d2)
     style = rng.choice(['flow', 'block'])
     return {'base': [emit.emit(d, style) for d in docs],
             'wrapped': [emit.emit(wrap(d, prefix), style) for d in docs], 'prefix': prefix,
-            'sibling': [emit.emit(d, style) for d in sib],
+            'sibling': [emit.emit(d, style) for d in sib], 'sib_names': sib_names,
+            'coincide': ({'name': coincide['name'], 'texts': [emit.emit(d, style) for d in docs[:-1]] + [emit.emit(coincide['alt_last'], style)]} if coincide else None),
             'renamed': [emit.emit(rename(d, perm), style) for d in docs], 'perm': perm, 'focus': focus,
             'ntags': sum(1 for d in docs for _, x in emit.walk(d) if emit.has_flags(x) or x['t'] == 'sp')}
 
@@ -268,9 +297,22 @@ def run(case):
         if s[0] != 'ok':
             vio.append({'mech': 'sibling-changes-outcome', 'what': f'base builds {util.short(base[1], 200)} but with extra sibling keys zz/zq: {util.short(s, 300)}; texts={case["sibling"]!r}'})
         else:
-            got = {k: v for k, v in s[1].items() if k not in ('zz', 'zq')}
+            got = {k: v for k, v in s[1].items() if k not in tuple(case.get('sib_names') or ('zz', 'zq'))}
             if util.typed(got) != util.typed(base[1]):
                 vio.append({'mech': 'sibling-changes-result', 'what': f'base = {util.short(base[1], 300)}; with siblings (restricted to the original keys) = {util.short(got, 300)}; texts={case["sibling"]!r}'})
+    # --- name coincidence
+    if case.get('coincide') and base[0] == 'ok':
+        c, _ = observe(case['coincide']['texts'])
+        feats.append('name_coincidence_checked')
+        nm = case['coincide']['name']
+        ok = c[0] == 'ok' and isinstance(c[1].get('dz'), dict) and isinstance(base[1].get('dz'), dict)
+        if ok:
+            alt = copy.deepcopy(c[1])
+            if 'fresh_k' in alt['dz']:
+                alt['dz'] = {(nm if k == 'fresh_k' else k): v for k, v in alt['dz'].items()}
+            ok = util.typed(alt) == util.typed(base[1])
+        if not ok:
+            vio.append({'mech': 'key-name-elsewhere-changes-result', 'what': f'base = {util.short(base[1], 300)}; with the key dz.{nm} of the deleting node called fresh_k instead = {util.short(c, 300)}; texts={case["base"]!r}'})
     # --- a sibling key added *inside* an existing mapping by an extra document in the middle of the sequence
     ds = deep_sibling(case, base)
     if ds:
